@@ -157,9 +157,14 @@ class Body:
                 true_t = t["otherwise"] if false_t is not None else None
                 if false_t is None or true_t is None:
                     continue
-                rf = self.reachable(false_t)
-                rt = self.reachable(true_t)
-                out |= (rt - rf)
+                if true_t == false_t:
+                    continue
+                # the region that runs only under debug assertions = blocks dominated by the true
+                # arm's target (dominance, not reachability: inside a loop the false arm reaches
+                # the same blocks again through the back edge)
+                if [p for p in self.preds()[true_t]] != [bb]:
+                    continue
+                out |= {b for b in range(self.n) if self.dominates(true_t, b)}
         self._dbg = out
         return out
 
@@ -280,7 +285,7 @@ class Body:
             if el == "deref":
                 e = ("deref", e)
             elif "f" in el:
-                e = ("field", e, el["f"])
+                e = ("field", e, el["f"], el.get("ty"))
             elif "downcast" in el:
                 e = ("downcast", e, el["downcast"])
             elif "idx" in el:
